@@ -2,6 +2,8 @@ package main
 
 import (
 	"encoding/json"
+	"go/types"
+	"reflect"
 	"flag"
 	"fmt"
 	"os"
@@ -162,8 +164,58 @@ type buildResult struct {
 	funcs       []string
 }
 
+// structObligations: facts about declarations, decided by go/types (no solver).
+func (w *World) structObligations(prop string) []*Obligation {
+	var out []*Obligation
+	for _, sf := range w.Contracts.StructFacts {
+		if sf.Prop != prop {
+			continue
+		}
+		spec := sf.Spec
+		want := "-"
+		if k := strings.Index(spec, "="); k >= 0 {
+			want = spec[k+1:]
+			spec = spec[:k]
+		}
+		o := &Obligation{ID: fmt.Sprintf("STRUCT#%s:%s#0", sf.Kind, sf.Spec), Kind: "STRUCT", Func: "declarations", Text: sf.Spec, Solver: "go/types", Status: "unknown", presolved: true}
+		k := strings.LastIndex(spec, ".")
+		if k > 0 {
+			if t, err := w.resolveType(spec[:k], nil); err == nil {
+				if st, ok := under(t).(*types.Struct); ok {
+					for i := 0; i < st.NumFields(); i++ {
+						if st.Field(i).Name() != spec[k+1:] {
+							continue
+						}
+						tag := reflect.StructTag(st.Tag(i)).Get("json")
+						name := strings.Split(tag, ",")[0]
+						switch sf.Kind {
+						case "json-hidden":
+							if tag == "-" {
+								o.Status = "unsat"
+							} else {
+								o.Status = "sat"
+								o.Model = "field is JSON-visible: tag " + strconv.Quote(st.Tag(i))
+							}
+						case "json-visible":
+							if tag != "-" && (name == want || (name == "" && want == st.Field(i).Name())) && st.Field(i).Exported() {
+								o.Status = "unsat"
+							} else {
+								o.Status = "sat"
+								o.Model = "tag is " + strconv.Quote(st.Tag(i))
+							}
+						}
+					}
+				}
+			}
+		}
+		out = append(out, o)
+	}
+	return out
+}
+
 func (w *World) buildProperty(prop string) *buildResult {
 	br := &buildResult{notes: map[string]bool{}}
+	br.obls = append(br.obls, w.structObligations(prop)...)
 	for _, sc := range w.scopeOf(prop) {
 		v := NewFnVC(w, sc.fn)
 		if err := v.Build(); err != nil {
@@ -201,6 +253,10 @@ func (w *World) buildProperty(prop string) *buildResult {
 func discharged(o *Obligation) bool {
 	if o.Expect == "sat" {
 		return o.Status == "sat"
+	}
+	if o.Expect == "notunsat" {
+		// canary: `false` must not be provable at the function's exit (the assumptions are not contradictory)
+		return o.Status == "sat" || o.Status == "unknown" || o.Status == "timeout"
 	}
 	return o.Status == "unsat"
 }
@@ -275,8 +331,28 @@ func SolveLock(obls []*Obligation) {
 	for i := 0; i < 16; i++ {
 		go func() {
 			for o := range ch {
+				if o.presolved {
+					o.lockOK = o.Status == "unsat"
+					continue
+				}
 				file := filepath.Join(scratchDir(), fmt.Sprintf("l%p.smt2", o))
 				os.WriteFile(file, []byte(o.Query(false)), 0o644)
+				if o.Expect == "notunsat" {
+					st, _, el := runSolver(solvers[0], file, 3*time.Second, 0)
+					st2 := st
+					if st != "unsat" {
+						st2, _, _ = runSolver(solvers[1], file, 3*time.Second, 0)
+					}
+					o.Status = st
+					if st2 == "unsat" {
+						o.Status = "unsat"
+					}
+					o.Ms = el.Milliseconds()
+					o.lockOK = o.Status != "unsat" && o.Status != "error"
+					o.Solver = solvers[0].name
+					os.Remove(file)
+					continue
+				}
 				want := "unsat"
 				if o.Expect == "sat" {
 					want = "sat"
@@ -477,7 +553,7 @@ func cmdCheck(args []string) int {
 				d++
 				byBackend[o.Solver]++
 				if len(samples) < 8 {
-					samples = append(samples, map[string]any{"obligation": o.ID, "at": o.Pos, "solver": o.Solver, "ms": o.Ms, "query_bytes": len(o.Query(false))})
+					samples = append(samples, map[string]any{"obligation": o.ID, "at": o.Pos, "solver": o.Solver, "ms": o.Ms, "query_bytes": queryLen(o)})
 				}
 			} else {
 				und = append(und, o)
@@ -673,4 +749,11 @@ func (w *World) isEntry(key string) bool {
 		return true
 	}
 	return w.Contracts.MethodNonNil[f.Name()] && f.Signature.Recv() != nil
+}
+
+func queryLen(o *Obligation) int {
+	if o.presolved || o.sc == nil {
+		return 0
+	}
+	return len(o.Query(false))
 }
